@@ -7,6 +7,9 @@ package main
 import (
 	"bytes"
 	"encoding/binary"
+	"net/http"
+	"net/http/httptest"
+	"net/url"
 	"os"
 	"path/filepath"
 
@@ -91,6 +94,18 @@ func ttlRes(t *needle.TTL, err error) tr.Ev {
 	return tr.Ev{"err": err != nil, "c": l[0], "u": l[1]}
 }
 
+// upload hands the request to the volume server's upload parser the way VolumeServer.PostHandler does
+func upload(r *http.Request, ok func(*needle.Needle) tr.Ev, failed tr.Ev) tr.Ev {
+	if err := r.ParseForm(); err != nil {
+		return failed
+	}
+	n, _, _, err := needle.CreateNeedleFromRequest(r, false, 1<<20, &bytes.Buffer{})
+	if err != nil || n == nil {
+		return failed
+	}
+	return ok(n)
+}
+
 func rpRes(rp *super_block.ReplicaPlacement, err error) tr.Ev {
 	if err != nil {
 		return tr.Ev{"err": true, "p": []int{0, 0, 0}}
@@ -160,6 +175,17 @@ func step(e tr.Ev) {
 	case "ttlstr":
 		t, err := needle.ReadTTL(str(e["s"]))
 		e["res"] = ttlRes(t, err)
+	case "upttl":
+		// the same text as the ttl parameter of an upload (how a TTL string enters a stored needle)
+		r := httptest.NewRequest("PUT", "/3,01deadbeef?ttl="+url.QueryEscape(str(e["s"])), bytes.NewReader([]byte("data")))
+		e["res"] = upload(r, func(n *needle.Needle) tr.Ev { return ttlRes(n.Ttl, nil) }, ttlRes(nil, os.ErrInvalid))
+	case "upfid":
+		// the text behind the comma of an upload path "/<vid>,<key hex><cookie hex>[_<delta>][.<ext>]"
+		r := httptest.NewRequest("PUT", "/", bytes.NewReader([]byte("data")))
+		r.URL.Path = "/3," + str(e["s"])
+		e["res"] = upload(r, func(n *needle.Needle) tr.Ev {
+			return tr.Ev{"err": false, "key": beBytes(uint64(n.Id), 8), "ck": beBytes(uint64(n.Cookie), 4)}
+		}, tr.Ev{"err": true, "key": []int{}, "ck": []int{}})
 	case "rpval":
 		p := tr.Ints(e["p"])
 		rp := &super_block.ReplicaPlacement{DiffDataCenterCount: p[0], DiffRackCount: p[1], SameRackCount: p[2]}
